@@ -43,16 +43,25 @@ Prologue == <<
                 [k |-> "delegate", from |-> "a6", val |-> 0, amt |-> "250000000000000000000"]>>),
     Blk(5000, <<[k |-> "liquidate", from |-> "vx1", to |-> "a1", amt |-> "1000000000000000000000"],
                 [k |-> "liquidate", from |-> "vx2", to |-> "a2", amt |-> "1000000000000000000000"],
-                [k |-> "liquidate", from |-> "vx1", to |-> "a3", amt |-> "1500000000000000000000"]>>),
+                [k |-> "liquidate", from |-> "vx1", to |-> "a3", amt |-> "1500000000000000000000"],
+                \* more DAO holders than a query page holds; a vesting account at the address of a4's next contract
+                [k |-> "dao_scatter", from |-> "a5", n |-> 120, salt |-> 0, amt |-> "1000000000000000"],
+                [k |-> "convert_into_vesting", from |-> "a6", to |-> "next:a4", amt |-> "1000000000000000000", lock |-> 3000, vest |-> 3000,
+                 merge |-> FALSE, stake |-> FALSE, val |-> 0, startOff |-> -20]>>),
     Blk(5000, <<[k |-> "redeem", from |-> "a2", to |-> "a6", amt |-> "1000000000000000000000", id |-> 1],
+                [k |-> "deploy", from |-> "a4", slots |-> 2],
                 [k |-> "gov_toggle", from |-> "a1", id |-> 0],
                 [k |-> "gov_vote", from |-> "v1", id |-> 1, opt |-> "yes"], [k |-> "gov_vote", from |-> "v2", id |-> 1, opt |-> "yes"],
-                [k |-> "gov_vote", from |-> "v3", id |-> 1, opt |-> "yes"]>>),
+                [k |-> "gov_vote", from |-> "v3", id |-> 1, opt |-> "yes"]>>
+              \* C19: coinomics is switched off by governance (minting has run for three blocks by then)
+              \o (IF Exports THEN <<[k |-> "gov_coinomics", from |-> "a2", enable |-> FALSE],
+                    [k |-> "gov_vote", from |-> "v1", id |-> 2, opt |-> "yes"], [k |-> "gov_vote", from |-> "v2", id |-> 2, opt |-> "yes"],
+                    [k |-> "gov_vote", from |-> "v3", id |-> 2, opt |-> "yes"]>> ELSE <<>>)),
     Blk(61000, <<[k |-> "send", from |-> "a5", to |-> "a4", amt |-> "1000"], [k |-> "spray", from |-> "a3", salt |-> 0]>>) >>
     \o (IF Exports THEN <<[ev |-> "export_import"]>> ELSE <<>>)
 
 Init == /\ hist = Prologue
-        /\ nv = 2 /\ nc = 1 /\ nl = 3 /\ np = 1 /\ blocks = 4
+        /\ nv = 2 /\ nc = 2 /\ nl = 3 /\ np = (IF Exports THEN 2 ELSE 1) /\ blocks = 4
         /\ dels = {<<"v1", 0>>, <<"v2", 1>>, <<"v3", 2>>} \cup {<<"a6", 0>>}  \* (delegator, validator index) pairs believed to exist
         /\ vfund = {<<"vx1", "a1">>, <<"vx2", "a2">>}     \* (vesting account, funder) pairs
         /\ daoh = {"a5"}                                  \* accounts believed to hold DAO shares
@@ -126,8 +135,10 @@ TxOfKind(h, k, f, d, q, vf) ==
       [] k = 43 -> [k |-> "gov_deposit", from |-> f, id |-> Pick(1..(IF np > 0 THEN np ELSE 1), h), amt |-> Pick({"10", "5000"}, h)]
       [] k = 44 -> [k |-> "ibc_transfer", from |-> f, amt |-> Pick(Amts, h)]
       [] k = 45 -> [k |-> "pc_ibc_transfer", from |-> f, amt |-> Pick(Amts, h)]
+      [] k = 46 -> [k |-> "gov_coinomics", from |-> f, enable |-> (Pick(1..2, h) = 1)]
+      [] k = 47 -> [k |-> "dao_scatter", from |-> DaoH(h), n |-> Pick({3, 40}, h), salt |-> Len(h), amt |-> "1000"]
 
-KindOf(k0) == IF k0 <= 45 THEN k0 ELSE IF k0 <= 47 THEN 18 ELSE IF k0 <= 49 THEN 19 ELSE IF k0 = 50 THEN 17 ELSE IF k0 = 51 THEN 15
+KindOf(k0) == IF k0 <= 47 THEN k0 ELSE IF k0 <= 49 THEN 19 ELSE IF k0 = 50 THEN 17 ELSE IF k0 = 51 THEN 15
               ELSE IF k0 <= 53 THEN 38 ELSE IF k0 = 54 THEN 41 ELSE IF k0 = 55 THEN 42 ELSE 8
 RandTx(h, slot) == TxOfKind(h, KindOf(Pick(1..56, h)), Pick(Accts, h), Del(h), Liq(h), Vf(h))
 
@@ -140,12 +151,12 @@ WithTopUps(txs) ==
           IF j = 0 THEN <<>>
           ELSE IF txs[j].k = "vest_create" /\ txs[j].merge = FALSE
                THEN F[j-1] \o <<txs[j], [k |-> "send", from |-> txs[j].from, to |-> txs[j].to, amt |-> "1000000000000000000"]>>
-               ELSE IF txs[j].k \in {"gov_toggle", "gov_evm_params"}
+               ELSE IF txs[j].k \in {"gov_toggle", "gov_evm_params", "gov_coinomics"}
                THEN F[j-1] \o <<txs[j]>> \o [v \in 1..3 |-> [k |-> "gov_vote", from |-> "v" \o ToString(v),
-                                                             id |-> np + 1 + Cardinality({y \in 1..(j-1) : txs[y].k \in {"gov_submit", "gov_submit2", "gov_toggle", "gov_evm_params"}}), opt |-> "yes"]]
+                                                             id |-> np + 1 + Cardinality({y \in 1..(j-1) : txs[y].k \in {"gov_submit", "gov_submit2", "gov_toggle", "gov_evm_params", "gov_coinomics"}}), opt |-> "yes"]]
                ELSE IF txs[j].k = "gov_submit2"
                THEN F[j-1] \o <<txs[j]>> \o [v \in 1..3 |-> [k |-> "gov_vote", from |-> "v" \o ToString(v),
-                                                             id |-> np + 1 + Cardinality({y \in 1..(j-1) : txs[y].k \in {"gov_submit", "gov_submit2", "gov_toggle", "gov_evm_params"}}), opt |-> "veto"]]
+                                                             id |-> np + 1 + Cardinality({y \in 1..(j-1) : txs[y].k \in {"gov_submit", "gov_submit2", "gov_toggle", "gov_evm_params", "gov_coinomics"}}), opt |-> "veto"]]
                ELSE Append(F[j-1], txs[j])
     IN F[Len(txs)]
 
@@ -164,7 +175,7 @@ Block ==
        /\ nv' = nv + NewVest(one)
        /\ nc' = nc + Count(one, "deploy")
        /\ nl' = nl + Count(one, "liquidate")
-       /\ np' = np + Count(one, "gov_submit") + Count(one, "gov_submit2") + Count(one, "gov_toggle") + Count(one, "gov_evm_params")
+       /\ np' = np + Count(one, "gov_submit") + Count(one, "gov_submit2") + Count(one, "gov_toggle") + Count(one, "gov_evm_params") + Count(one, "gov_coinomics")
        /\ blocks' = blocks + 1
        /\ dels' = dels \cup {<<one[j].from, one[j].val>> : j \in {x \in DOMAIN one : one[x].k \in {"delegate", "pc_delegate"}}}
                         \cup {<<one[j].from, one[j].val2>> : j \in {x \in DOMAIN one : one[x].k = "redelegate"}}
